@@ -57,27 +57,74 @@ def _feedforward_spec(rng):
                 supervisor="n1", seed=rng.randrange(1 << 30))
 
 
-def lifecycle_case(seed, mode="none", clock="SIMULATED", topology="random", histories=None):
-    """Runs call histories (reset|run|step)* stop over several episodes on one graph. Returns per-episode records.
-    If a call never returns the worker is killed by the pool's watchdog (reported as a hang)."""
+class CallWatchdog:
+    """A lifecycle call that does not return within `limit` s ends the worker with a result naming the call."""
+
+    def __init__(self, limit, info):
+        self.limit, self.info, self.timer = limit, info, None
+
+    def _fire(self, what):
+        import json
+        import os
+        import sys
+
+        out = getattr(sys.modules.get("__main__"), "real_stdout", sys.__stdout__)
+        out.write("@@RESULT@@" + json.dumps(dict(self.info, hang=what, crashed=True), default=str) + "\n")
+        out.flush()
+        os._exit(3)
+
+    def __call__(self, what, fn, *a):
+        self.timer = threading.Timer(self.limit, self._fire, args=(what,))
+        self.timer.daemon = True
+        self.timer.start()
+        try:
+            return fn(*a)
+        finally:
+            self.timer.cancel()
+
+
+def tag_eps(gs, k):
+    """stamp episode tag k on the graph state and on every node's step state (the step functions report the tag they saw)"""
+    import numpy as onp
+
+    sss = {n: ss.replace(eps=onp.int32(k)) for n, ss in gs.step_state.items()}
+    return gs.replace(eps=onp.int32(k)).replace_step_states(step_states=sss)
+
+
+def lifecycle_case(seed, mode="none", clock="SIMULATED", topology="random", histories=None, call_limit=150):
+    """Runs call histories (reset|run|step)* stop over several episodes on one graph. A "reset" (or the first "run") in the middle
+    of a history starts a new episode without stop() in between. Episodes start from the initial graph state or (marked `carried`)
+    from the graph state the previous episode ended in. Returns per-episode records and what every step function saw (eps, seq).
+    If a call does not return the worker ends with a `hang` result naming the call."""
     from rex import _verif
+    import numpy as onp
 
     rng = random.Random(seed)
     spec = _feedforward_spec(rng) if (topology == "feedforward" or clock == "WALL_CLOCK") else rt.rand_spec(rng)
-    run = rt.AsyncRun(spec, clock=clock, rtf=0)
+    run = rt.AsyncRun(spec, clock=clock, rtf=0, count_calls=True)
     ctl = StopInterleaver(mode, seed)
     _verif.set_controller(ctl)
+    with rt.CALL_LOCK:  # worker processes are reused: forget what earlier tasks' step functions reported
+        rt.CALLS.clear()
+        rt.CALLS_EPS.clear()
     if histories is None:
-        histories = [["run"] * rng.randint(1, 4), ["reset"] + ["step"] * rng.randint(0, 3), ["run"], ["reset"], ["run"] * 3, ["reset", "step"]]
+        histories = [["run"] * rng.randint(1, 4), ["reset"] + ["step"] * rng.randint(0, 3), ["run"], ["reset"], ["run"] * 3, ["reset", "step"],
+                     ["reset", "step", "step", "reset", "step"], ["run", "run", "reset", "step"], ["reset", "reset"], ["reset", "step", "reset"]]
         rng.shuffle(histories)
-        histories = histories[:4]
+        histories = histories[:5]
     out = dict(spec=spec, mode=mode, clock=clock, episodes=[], hits=[])
-    import numpy as onp
-
+    wd = CallWatchdog(call_limit, dict(spec=spec, mode=mode, clock=clock))
+    eps_counter = 0
+    final_gs = None
     for e, hist in enumerate(histories):
-        gs = run.gs0.replace(eps=onp.int32(0))
+        carried = final_gs is not None and rng.random() < 0.5
+        start_gs = final_gs if carried else run.gs0
+        eps_counter += 1
+        cur_eps = eps_counter
+        gs = tag_eps(start_gs, cur_eps)
         ss = None
         n_sup = 0
+        obs = []
         t0 = time.time()
         for i, call in enumerate(hist):
             if i == len(hist) - 1:
@@ -85,26 +132,40 @@ def lifecycle_case(seed, mode="none", clock="SIMULATED", topology="random", hist
                 ctl.user_cancelled.clear()
                 ctl.slept = 0.0
                 ctl.armed = True  # arm before the last call so that the supervisor's *next* step meets the gates
+            what = f"episode {e} history {hist} call {i} ({call})"
             if call == "run":
-                gs = run.graph.run(gs)
+                gs = wd(what, run.graph.run, gs)
                 n_sup += 1
             elif call == "reset":
-                gs, ss = run.graph.reset(gs)
+                if i > 0:  # a new episode without stop(): from the current graph state or from the initial one
+                    carried = rng.random() < 0.5
+                    eps_counter += 1
+                    cur_eps = eps_counter
+                    gs = tag_eps(gs if carried else run.gs0, cur_eps)
+                    n_sup = 0
+                    obs = []
+                gs, ss = wd(what, run.graph.reset, gs)
+                obs.append(int(ss.seq))
             elif call == "step":
-                gs, ss = run.graph.step(gs)
+                gs, ss = wd(what, run.graph.step, gs)
+                obs.append(int(ss.seq))
                 n_sup += 1
         ctl.armed = True
-        run.graph.stop()
+        wd(f"episode {e} history {hist} stop()", run.graph.stop)
         ctl.armed = False
+        final_gs = gs
         states = {n: str(w._state) for n, w in run.graph._async_nodes.items()}
         cstates = {f"{c.connection.output_node.name}->{n}": str(c._state) for n, w in run.graph._async_nodes.items() for c in w.inputs.values()}
         pending = {n: len([f for f, *_ in w._q_task if not f.done()]) for n, w in run.graph._async_nodes.items()}
         rec = rt.safe_get_record(run.graph)
-        out["episodes"].append(dict(history=hist, n_sup=n_sup, wall=time.time() - t0, record=rt.episode_record_to_dict(rec), states=states, conn_states=cstates, pending=pending))
+        with rt.CALL_LOCK:
+            seen = {n: [sq for (ep_, sq) in v if ep_ == cur_eps] for n, v in rt.CALLS_EPS.items()}
+        out["episodes"].append(dict(history=hist, n_sup=n_sup, wall=time.time() - t0, record=rt.episode_record_to_dict(rec), states=states, conn_states=cstates, pending=pending,
+                                    carried=carried, seen=seen, obs_seq=obs))
         out["hits"] += ctl.hits
         ctl.hits = []
     _verif.set_controller(None)
     # stop() twice in a row and stop() before any start must also return
-    run.graph.stop()
+    wd("second stop()", run.graph.stop)
     out["double_stop"] = True
     return out
